@@ -203,6 +203,7 @@ class Encoder:
         self.cons = []
         self.S = []
         self.aux = []
+        self.notify_sels = {}
         self.tindex = {t.name: i for i, t in enumerate(threads)}
         self._lockset()
         self._commands()
@@ -499,6 +500,7 @@ class Encoder:
                         aux['sel%d' % len(aux)] = sv
                         sels.append((u, e, sv))
                         b.append(z3.Implies(sv, e))
+                    self.notify_sels.setdefault((k, cmd.idx), []).append([(u.name, sv) for u, e, sv in sels])
                     if sels:
                         anye = z3.Or(*[e for _, e, _ in sels])
                         b.append(z3.Implies(anye, z3.Or(*[sv for _, _, sv in sels])))
@@ -735,6 +737,62 @@ class Encoder:
                     for v in st[1].res.values():
                         cs.append(v == m.eval(v, model_completion=True))
         return cs
+
+    def trace_ops(self, m):
+        """operation-level schedule from a model: list of (thread, op, params) in execution order (for the controlled-runtime
+        replay): notify targets, timed_out flags, clock values and spawned thread names are read from the model"""
+        out = []
+        ev = lambda e: m.eval(e, model_completion=True)
+        for k in range(self.K):
+            ci = ev(self.cmdvar[k]).as_long()
+            if ci >= len(self.cmds):
+                continue
+            c = self.cmds[ci]
+            tn = c.thread.name
+            nsel = 0
+            for st in c.steps:
+                if st[0] == 'br':
+                    continue
+                e = st[1]
+                if st[0] == 'wake':
+                    to = e.res.get('timed_out')
+                    out.append((tn, 'wake', {'timed_out': int(bool(z3.is_true(ev(to)))) if to is not None else 0}))
+                    continue
+                kind = e.kind
+                p = {}
+                if e.obj is not None:
+                    p['obj'] = e.obj
+                if kind == 'wait_timeout':
+                    p['dur'] = ev(e.args[0]).as_long()
+                elif kind == 'notify_one':
+                    sels = self.notify_sels.get((k, ci), [])
+                    tgt = 'none'
+                    if nsel < len(sels):
+                        for un, sv in sels[nsel]:
+                            if z3.is_true(ev(sv)):
+                                tgt = un
+                    nsel += 1
+                    p['target'] = tgt
+                elif kind == 'now':
+                    p['t'] = ev(e.res['t']).as_long()
+                elif kind == 'spawn':
+                    before = self.S[k]
+                    after = self.S[k + 1]
+                    for u in self.threads:
+                        if not u.active and not z3.is_true(ev(before['active:' + u.name])) and z3.is_true(ev(after['active:' + u.name])):
+                            if not any(x[1] == 'spawn' and x[2].get('child') == u.name for x in out):
+                                p['child'] = u.name
+                                break
+                elif kind in ('a_store', 'a_fetch_add', 'a_fetch_sub') and e.args:
+                    p['v'] = ev(e.args[0]).as_long()
+                elif kind in ('q_push', 'send') and len(e.args) > 1:
+                    p['payload'] = ev(e.args[1]).as_long()
+                elif kind == 'task_run' and e.args:
+                    p['id'] = ev(e.args[0]).as_long()
+                elif kind in ('observe', 'result'):
+                    p['what'] = e.extra
+                out.append((tn, kind, p))
+        return out
 
     def trace(self, m):
         """readable schedule from a model"""
